@@ -2640,6 +2640,9 @@ func (pid *PID) setBehavior(behavior Behavior) {
 // resetBehavior is a utility function resets the actor behavior
 func (pid *PID) resetBehavior() {
 	pid.fieldsLocker.Lock()
+	// drop every stacked behavior first: pushing the default on top of them
+	// would let a later UnBecomeStacked resume a behavior UnBecome discarded
+	pid.behaviorStack.Reset()
 	pid.behaviorStack.Push(pid.actor.Receive)
 	pid.fieldsLocker.Unlock()
 }
